@@ -1521,7 +1521,64 @@ STREAMS = [
            doc="torchSem (shape + dim-0 provenance) of every operation form vs torch itself on plain tensors"),
 ]
 
+def gen_layout(rng: random.Random, tier: str):
+    for _ in range(_n(tier, 40, 600, 120)):
+        d = rng.choice([2, 3])
+        yield {"d": d, "n": rng.randint(1, 3), "c": rng.randint(2, 3), "flow": rng.random() < 0.4, "seed": rng.randrange(1 << 30),
+               "layout": rng.choice(["channels_last", "permuted_view", "channel_slice", "strided", "flipped", "plain"]),
+               "how": rng.choice(["pickle", "pickle", "copy", "deepcopy"]), "single": rng.random() < 0.3}
+
+
+def check_layout(c):
+    """copies (copy / deepcopy / pickle) of typed tensors keep the VALUES entry by entry whatever the memory layout of the
+    object is (channels-last, a permuted view of a channels-last array, slices, flips) — with type, grids and axes"""
+    import pickle as _pickle
+
+    d, n = c["d"], c["n"]
+    ch = d if c["flow"] else c["c"]
+    sp = tuple([4, 5, 3][:d])
+    gen_t = torch.Generator().manual_seed(c["seed"])
+    grids = [grid_for(i, sp) for i in range(n)]
+    base = torch.rand((n, ch) + sp, generator=gen_t)
+    lay = c["layout"]
+    if lay == "permuted_view":
+        arr = torch.rand((n,) + sp + (ch,), generator=gen_t)
+        base = arr.movedim(-1, 1)                          # (N, C, ..., X) view of a channels-last array
+    x = FlowFields(base, grids, AXES_TAGS[1]) if c["flow"] else ImageBatch(base, grids)
+    if lay == "channels_last":
+        x = x.contiguous(memory_format=torch.channels_last if d == 2 else torch.channels_last_3d)
+    elif lay == "channel_slice" and not c["flow"]:
+        x = x[:, :1]
+    elif lay == "strided":
+        x = x[::2] if n > 1 else x
+    elif lay == "flipped":
+        x = x.flip(-1)
+    if c["single"]:
+        x = x[0]
+    if type(x) is torch.Tensor:
+        return None
+    try:
+        y = {"pickle": lambda: _pickle.loads(_pickle.dumps(x)), "copy": lambda: copy.copy(x), "deepcopy": lambda: copy.deepcopy(x)}[c["how"]]()
+    except Exception as e:  # noqa: BLE001
+        return (f"C19:{c['how']}:{lay}:raises", f"{c['how']} of a {type(x).__name__} ({lay}) raises {type(e).__name__}: {str(e)[:100]}")
+    if type(y) is not type(x):
+        return (f"C19:{c['how']}:{lay}:type", f"{type(x).__name__} became {type(y).__name__}")
+    if y.shape != x.shape or not torch.equal(y.as_subclass(torch.Tensor), x.as_subclass(torch.Tensor)):
+        return (f"C19:{c['how']}:{lay}:values", f"{c['how']} of a {type(x).__name__} with layout '{lay}' changed the data "
+                f"(max abs diff {float((y.as_subclass(torch.Tensor) - x.as_subclass(torch.Tensor)).abs().max()) if y.shape == x.shape else 'shape'})")
+    gx = x.grids() if hasattr(x, "grids") else (x.grid(),)
+    gy = y.grids() if hasattr(y, "grids") else (y.grid(),)
+    if len(gx) != len(gy) or any(not (a == b) for a, b in zip(gx, gy)):
+        return (f"C19:{c['how']}:{lay}:grids", "grids differ after the copy")
+    if c["flow"] and y.axes() != x.axes():
+        return (f"C19:{c['how']}:{lay}:axes", "axes differ after the copy")
+    return None
+
+
 ORACLES = [
+    Oracle("copy_layout", gen_layout, check_layout,
+           doc="copy / deepcopy / pickle of ImageBatch / FlowFields / Image / FlowField in non-default memory layouts (channels "
+               "last, permuted views, slices, flips) keep values, type, grids, axes"),
     Oracle("aligned", gen_oracle_programs, check_program, nontrivial=nontrivial_program,
            doc="after every step: one grid per entry, grid shape = spatial shape, entry i carries grid and axes of the item "
                "whose data it holds (provenance measured by changing one item at a time); copy/deepcopy/pickle preserve "
